@@ -214,12 +214,12 @@ var templates = []tmpl{
 	{"errordict /typecheck {1 (x) add} put 1 (x) add", []string{"typecheck"}},
 	{"errordict /typecheck {{1} loop} put 1 (x) add", []string{"stackoverflow"}},
 	{"errordict /rangecheck {/h {h 1} def h} put (abc) 7 get", []string{"execstackoverflow"}},
-	{"65537 array", []string{"limitcheck"}},
+	{"65537 array", []string{"limitcheck", ""}},
 	{"2147483648 string", []string{"limitcheck"}},
 	{"9223372036854775807 dict", []string{"limitcheck"}},
 	{"65535 array 65535 string 65535 dict pop pop pop", []string{""}},
 	{"4294967296 array", []string{"limitcheck"}},
-	{"{65536 array} loop", []string{"stackoverflow"}},
+	{"{65535 array} loop", []string{"stackoverflow"}},
 	// tokens of a procedure body that is never closed, or is very long, pile
 	// up on the operand stack while it is collected
 	{"{ " + strings.Repeat("0 ", 70000), []string{"stackoverflow", "limitcheck"}},
@@ -338,7 +338,7 @@ func nameRecursionBug(rec *ev.Rec) bool {
 func TestP2Limits(t *testing.T) {
 	rec := ev.New("C11", "limits")
 	defer rec.Finish(t)
-	rec.Rule("recursion and growth templates run with MaxOps = 0 in a child process (a Go stack overflow or a hang is the failure mode): self-call in non-tail position directly and through exec, if, ifelse, repeat, forall (array, string), for, loop; mutual recursion over 2 and 3 names; a procedure applying itself; begin in loops and in recursion, also inside an eexec section entered at dictionary-stack depth 2..21 (the section adds one entry of its own); loops that push (loop, for, repeat, dup, count, inside an open array); error handlers in errordict that fail themselves or loop; exec chains 95-130 deep; array/string/dict requests of 65535 (must succeed), 65537, 2^31, 2^32, maxint - each wrapped 0-3 times in exec / if / ifelse / repeat / begin / padding. Oracle: the run ends with the PostScript error the template determines (execstackoverflow, stackoverflow, dictstackoverflow, limitcheck ...), operand stack <= 2^20 and dictionary stack <= 2^16 entries (bounds far above the present limits of 500 / 20, which the property does not fix). Non-trivial: template nested >= 2 deep (>= 1 wrapper); distinct by program text.")
+	rec.Rule("recursion and growth templates run with MaxOps = 0 in a child process (a Go stack overflow or a hang is the failure mode): self-call in non-tail position directly and through exec, if, ifelse, repeat, forall (array, string), for, loop; mutual recursion over 2 and 3 names; a procedure applying itself; begin in loops and in recursion, also inside an eexec section entered at dictionary-stack depth 2..21 (the section adds one entry of its own); loops that push (loop, for, repeat, dup, count, inside an open array); error handlers in errordict that fail themselves or loop; exec chains 95-130 deep; array/string/dict requests of 65535 (the PLRM's architectural limit: must succeed), 65537 (success or limitcheck: what counts as oversized between 2^16 and 2^31 is the implementation's choice), 2^31, 2^32, maxint - each wrapped 0-3 times in exec / if / ifelse / repeat / begin / padding. Oracle: the run ends with the PostScript error the template determines (execstackoverflow, stackoverflow, dictstackoverflow, limitcheck ...), operand stack <= 2^20 and dictionary stack <= 2^16 entries (bounds far above the present limits of 500 / 20, which the property does not fix). Non-trivial: template nested >= 2 deep (>= 1 wrapper); distinct by program text.")
 	bug := nameRecursionBug(rec)
 	var cases []limitCase
 	var raws [][]byte
